@@ -191,3 +191,36 @@ Proof.
     destruct (find_index_some _ _ _ _ Ek) as [Ek1 Ek2].
     eapply (IH k l eq_refl Ek1 Ek2 j l'); [lia|exact Ej].
 Qed.
+
+(** * Why the theorems assume one length of hardware address in messages
+
+    reserveLease writes the new client's address into the recycled lease with
+    copy(), which keeps the length of the old address.  The statement "one
+    lease per client in every reachable state" without [hist_ok] ... *)
+Definition one_lease_per_client_statement : Prop :=
+  forall c h, valid_conf c ->
+  NoDup (filter live (map l_mac (leases (run c h empty_state)))).
+
+(** ... is refuted: four clients fill the pool, client 1 renews, the others
+    expire, and a client whose 8-byte address 00:00:00:00:00:01:00:07 starts
+    with client 1's six bytes asks: the recycled lease of client 2 now
+    carries client 1's address, so client 1 holds two leases. *)
+Definition mixed_history : list event :=
+  let t := example_now in
+  let sid := Some 167772162 in
+  [ (t, [], ODiscover (mac6 1)); (t, [], ORequest (mac6 1) sid (Some 167772164) 0 []);
+    (t, [], ODiscover (mac6 2)); (t, [], ORequest (mac6 2) sid (Some 167772165) 0 []);
+    (t, [], ODiscover (mac6 3)); (t, [], ORequest (mac6 3) sid (Some 167772166) 0 []);
+    (t, [], ODiscover (mac6 4)); (t, [], ORequest (mac6 4) sid (Some 167772167) 0 []);
+    ((t + 1800000000000)%Z, [], ORequest (mac6 1) None None 167772164 []);
+    ((t + 3800000000000)%Z, [], ODiscover 18446744073709617159) ].
+
+Theorem mixed_hwaddr_refuted : ~ one_lease_per_client_statement.
+Proof.
+  intros H. specialize (H example_conf mixed_history).
+  assert (V : valid_conf example_conf) by (vm_compute; repeat split; congruence).
+  specialize (H V). vm_compute in H.
+  inversion H as [|? ? Hn _]. apply Hn. left. reflexivity.
+Qed.
+
+(** With [hist_ok] the statement is part of [inv_reachable_expanded]. *)
